@@ -581,3 +581,64 @@ def lazy_reuse_rule(report, p, rid, roots, what):
             r.check(False, f, use, f"`{norm(asg.targets[0])}` is bound once to a single-use iterator ({norm(asg.value)[:60]}, line {asg.lineno}) and consumed inside the loop at line {loop.lineno}: only the first round sees any element", construct=f"single-use iterator {norm(asg.targets[0])} consumed inside a loop")
     r.check(True, None, None, "")
     return r
+
+
+def neg_zero_slices(p, pr, f):
+    """[(subscript node, bound expr)] - `seq[-k:]` (or `seq[:-k]`) where k is the result of a modulo operation (so it is 0 for some inputs) and the slice is not
+    guarded by a test of k: `seq[-0:]` is the WHOLE sequence and `seq[:-0]` is EMPTY - the opposite of what `the last / all but the last k items` means"""
+    from sa.cfg import cfg_of
+
+    out = []
+    g = None
+    for n in walk_no_nested(f.node):
+        if not (isinstance(n, ast.Subscript) and isinstance(n.slice, ast.Slice)):
+            continue
+        for which, b in (("lower", n.slice.lower), ("upper", n.slice.upper)):
+            if not (isinstance(b, ast.UnaryOp) and isinstance(b.op, ast.USub)):
+                continue
+            k = b.operand
+            if isinstance(k, ast.Constant):
+                continue
+            # is k a remainder?
+            kexpr = k
+            if isinstance(k, ast.Name):
+                binds = [a for a in walk_no_nested(f.node) if isinstance(a, ast.Assign) and len(a.targets) == 1 and isinstance(a.targets[0], ast.Name) and a.targets[0].id == k.id]
+                if len(binds) == 1:
+                    kexpr = binds[0].value
+            if not (isinstance(kexpr, ast.BinOp) and isinstance(kexpr.op, ast.Mod)):
+                continue
+            g = g or cfg_of(f)
+            ktxt = norm(k)
+            nn = g.node_for(n)
+            guarded = False
+            for t_, l in g.necessary_branches(nn):
+                for a, lab in atomic_deps(t_.ast, l):
+                    if (a == ktxt and lab == "T") or (a in (f"{ktxt} == 0", f"0 == {ktxt}") and lab == "F") or (a in (f"{ktxt} > 0", f"{ktxt} >= 1") and lab == "T"):
+                        guarded = True
+            # expression-level guard:  seq[-k:] if k else []
+            x, par = n, parent(n)
+            while par is not None and not isinstance(par, ast.stmt):
+                if isinstance(par, ast.IfExp) and x is par.body and norm(par.test) in (ktxt, f"{ktxt} > 0", f"{ktxt} != 0"):
+                    guarded = True
+                x, par = par, parent(par)
+            if not guarded:
+                out.append((n, k, which))
+    return out
+
+
+def neg_zero_slice_rule(report, p, pr, rid, roots, what):
+    r = report.rule(
+        rid,
+        f"no `seq[-k:]` / `seq[:-k]` with a remainder k (`n % m`, zero for every multiple) without a test of k in anything {what} reaches: `seq[-0:]` is the whole sequence, not the empty tail - "
+        "a batching helper written this way emits every item twice whenever the item count is a multiple of the batch size",
+        3,
+    )
+    for q in sorted(p.reachable(list(roots))):
+        f = p.funcs.get(q)
+        if f is None or not f.module.name.startswith("ascmhl"):
+            continue
+        r.instance(f, f.node, f"{f.qual}: slices scanned")
+        for n, k, which in neg_zero_slices(p, pr, f):
+            r.check(False, f, n, f"`{norm(n)[:60]}` with `{norm(k)}` a remainder: when it is 0 (the count is an exact multiple) the slice is {'the WHOLE sequence' if which == 'lower' else 'EMPTY'} instead of {'empty' if which == 'lower' else 'the whole sequence'} - every item is handled twice / none at all for exactly those counts", construct=f"slice bound -{norm(k)} can be -0")
+    r.check(True, None, None, "")
+    return r
